@@ -533,8 +533,14 @@ def run(ctx):
         envd = make_environ(method='POST', path='/echo', body_input=inp, content_length=declared,
                             content_type=ctype)
         ex = WsgiExchange(ctx)
-        if ex.call(app2, envd):
-            ex.consume()
+        try:
+            if ex.call(app2, envd):
+                ex.consume()
+        except SimBudgetExceeded as bex:
+            # the application keeps asking a wsgi.input that has nothing more to give
+            ctx.violate('media.hang', 'request did not complete: %s (fault %r, %d reads of wsgi.input)' % (
+                bex, fault, len(inp.calls)), stack='wsgi')
+            return
         status2, exc = ex.status_code, ex.app_exc
         ctx.sched_key = 'W%d' % len(inp.calls)
         ctx.steps += len(inp.calls)
